@@ -151,7 +151,12 @@ func Read(p *parser.Parser, pos int64) (Table, error) {
 
 func (table Table) encInfo() ([]glyph.ID, int, int) {
 	rev := make([]glyph.ID, len(table))
+	seen := make([]bool, len(table))
 	for gid, i := range table {
+		if i < 0 || i >= len(rev) || seen[i] {
+			panic("invalid coverage table")
+		}
+		seen[i] = true
 		rev[i] = gid
 	}
 	for i := 1; i < len(rev); i++ {
